@@ -142,7 +142,8 @@ def make_slice(sl):
     body_m = sf.masked[lo:hi]
 
     def one(anchor):
-        idx = [m.start() for m in re.finditer(re.escape(anchor), body_m)]
+        pat = anchor[3:] if anchor.startswith("re:") else re.escape(anchor)
+        idx = [m.start() for m in re.finditer(pat, body_m)]
         if len(idx) != 1:
             raise sources.AnchorLost("slice %s: anchor %r matched %d times in %s" % (sl["name"], anchor, len(idx), sl["fn"]))
         return lo + idx[0]
@@ -151,8 +152,17 @@ def make_slice(sl):
     if sl.get("stmts_from"):
         a = one(sl["stmts_from"])
         a = sf.text.rfind("\n", 0, a) + 1
-        b = one(sl["stmts_to"])
-        b = sf.text.rfind("\n", 0, b) + 1
+        if sl.get("stmts_upto"):
+            b = sf.text.find("\n", one(sl["stmts_upto"])) + 1
+        else:
+            b = one(sl["stmts_to"])
+            b = sf.text.rfind("\n", 0, b) + 1
+        parts.append(sf.text[a:b])
+    for fr, to in sl.get("more_stmts", []):
+        a = one(fr)
+        a = sf.text.rfind("\n", 0, a) + 1
+        b = one(to)
+        b = sf.text.find("\n", b) + 1 if sl.get("more_inclusive", True) else sf.text.rfind("\n", 0, b) + 1
         parts.append(sf.text[a:b])
     tail = sl.get("post", "")
     if sl.get("expr_of_assign"):
